@@ -401,8 +401,11 @@ impl Xot {
         if namespace == self.no_namespace() {
             return Ok(local_name.to_string());
         }
-        // look up the prefix for the namespace
-        if let Some(prefix) = self.prefix_for_namespace(node, namespace) {
+        // look up the prefix for the namespace; if we are asked about an
+        // attribute node the empty prefix won't do
+        if let Some(prefix) =
+            self.prefix_for_namespace_impl(node, namespace, self.is_attribute_node(node))
+        {
             let prefix = self.prefix_str(prefix);
             if !prefix.is_empty() {
                 Ok(format!("{}:{}", prefix, local_name))
@@ -512,6 +515,17 @@ impl Xot {
     ///
     /// Returns `None` if no prefix is defined for the namespace.
     pub fn prefix_for_namespace(&self, node: Node, namespace: NamespaceId) -> Option<PrefixId> {
+        self.prefix_for_namespace_impl(node, namespace, false)
+    }
+
+    // An attribute name cannot use the empty prefix: an unprefixed attribute
+    // is in no namespace.
+    pub(crate) fn prefix_for_namespace_impl(
+        &self,
+        node: Node,
+        namespace: NamespaceId,
+        for_attribute: bool,
+    ) -> Option<PrefixId> {
         let mut seen = HashSet::default();
 
         for ancestor in self.ancestors(node) {
@@ -522,6 +536,9 @@ impl Xot {
                     continue;
                 }
                 seen.insert(key);
+                if for_attribute && key == self.empty_prefix_id {
+                    continue;
+                }
                 if *value == namespace {
                     return Some(key);
                 }
